@@ -2652,9 +2652,13 @@ where
         };
 
         self.process_inlines();
+        #[cfg(comrak_verif)]
+        verif_footnote_hooks::observe(false, self.root);
         if self.options.extension.footnotes {
             self.process_footnotes();
         }
+        #[cfg(comrak_verif)]
+        verif_footnote_hooks::observe(true, self.root);
     }
 
     fn finalize(&mut self, node: &'a AstNode<'a>) -> Option<&'a AstNode<'a>> {
@@ -3433,5 +3437,37 @@ pub mod verif_hooks {
     pub fn split_off_front_matter(s: &str, delimiter: &str) -> Option<(String, String)> {
         crate::strings::split_off_front_matter(s, delimiter)
             .map(|(a, b)| (a.to_string(), b.to_string()))
+    }
+}
+
+/// Verification hook (only with `--cfg comrak_verif`): a thread-local observer that
+/// `finalize_document` calls with the document root right before and right after the
+/// footnote pass (`process_footnotes`), i.e. after inline parsing and before
+/// `postprocess_text_nodes`.
+#[cfg(comrak_verif)]
+#[doc(hidden)]
+pub mod verif_footnote_hooks {
+    use crate::nodes::AstNode;
+    use std::cell::RefCell;
+
+    /// The observer: `after` is `false` before `process_footnotes` and `true` after it.
+    pub type FootnoteTap = Box<dyn for<'a> FnMut(bool, &'a AstNode<'a>)>;
+
+    thread_local! {
+        static TAP: RefCell<Option<FootnoteTap>> = const { RefCell::new(None) };
+    }
+
+    /// Install (or, with `None`, remove) this thread's observer; returns the previous one.
+    pub fn set_tap(tap: Option<FootnoteTap>) -> Option<FootnoteTap> {
+        TAP.with(|t| std::mem::replace(&mut *t.borrow_mut(), tap))
+    }
+
+    /// Called by `finalize_document`.
+    pub fn observe<'a>(after: bool, root: &'a AstNode<'a>) {
+        TAP.with(|t| {
+            if let Some(f) = t.borrow_mut().as_mut() {
+                f(after, root);
+            }
+        });
     }
 }
